@@ -14,6 +14,8 @@ import (
 	"time"
 
 	astisub "github.com/asticode/go-astisub"
+
+	"verif/ref/teletext"
 )
 
 type Doc struct {
@@ -67,6 +69,24 @@ func writeSTL(dsc string, fps int, n int) []byte {
 	return b.Bytes()
 }
 
+// tsDocs: small valid transport streams carrying teletext subtitles, assembled by the independent
+// encoder (engine/ref/teletext); used as inputs for conversion, schedule, fault, totality and concurrency checks.
+func tsDocs() []Doc {
+	fr := teletext.BuildTS(teletext.Spec{Pages: []teletext.Page{
+		{Number: 888, AtMs: 1000, Nat: teletext.French, Rows: []teletext.RowText{{Row: 20, Text: "été à Noël"}, {Row: 22, Text: "ligne deux", Colour: 3}}},
+		{Number: 888, AtMs: 3000, Nat: teletext.French},
+		{Number: 888, AtMs: 4000, Nat: teletext.French, Rows: []teletext.RowText{{Row: 22, Text: "ça va"}}},
+	}})
+	de := teletext.BuildTS(teletext.Spec{Serial: true, Pages: []teletext.Page{
+		{Number: 150, AtMs: 500, Nat: teletext.German, Rows: []teletext.RowText{{Row: 21, Text: "Grüße ÄÖÜ ß", DoubleHeight: true}}},
+		{Number: 150, AtMs: 2500, Nat: teletext.German, Rows: []teletext.RowText{{Row: 23, Text: "zwei"}}},
+	}})
+	en := teletext.BuildTS(teletext.Spec{Pages: []teletext.Page{
+		{Number: 888, AtMs: 1000, Rows: []teletext.RowText{{Row: 22, Text: "one"}}},
+	}})
+	return []Doc{{"ts-french-3", "ts", fr, true}, {"ts-german-serial-2", "ts", de, true}, {"ts-english-1", "ts", en, true}}
+}
+
 var extra []Doc // registered by other packages (e.g. transport streams from the teletext encoder)
 
 // Register adds documents (used for .ts samples built by ref/teletext).
@@ -102,6 +122,7 @@ func Small() []Doc {
 		{"stl-gsi-only", "stl", writeSTL("0", 25, 0), true},
 		{"stl-truncated-tti", "stl", writeSTL("0", 25, 2)[:1024+128+60], false},
 	}
+	ds = append(ds, tsDocs()...)
 	return append(ds, extra...)
 }
 
